@@ -42,7 +42,7 @@ var reCallName = regexp.MustCompile(`^\d+\s+(\w+)\(`)
 // the store directory on, the call's name and its occurrence number among the calls of that name
 // (strace's fault injection counts per system call name). Killing the process at the entry of that
 // call leaves exactly the effects of the calls before it.
-func killPoints(setup func(string), base, docfile string) []killPoint {
+func killPoints(setup func(string), base, docfile, noclobber string) []killPoint {
 	d := filepath.Join(base, "probe")
 	_ = os.Mkdir(d, 0o755)
 	setup(d)
@@ -50,7 +50,7 @@ func killPoints(setup func(string), base, docfile string) []killPoint {
 	tf := filepath.Join(base, "probe.trace")
 	cmd := exec.Command("strace", "-f", "-qq", "-o", tf,
 		"-e", "trace=openat,write,fsync,fdatasync,fchmod,close,rename,renameat,renameat2,ftruncate,unlink,unlinkat",
-		storechildPath(), "store", d, docfile, "false")
+		storechildPath(), "store", d, docfile, noclobber)
 	if err := cmd.Run(); err != nil {
 		return nil
 	}
@@ -79,21 +79,21 @@ func killPoints(setup func(string), base, docfile string) []killPoint {
 	return pts
 }
 
-func killAt(kp killPoint, d, docfile string) {
+func killAt(kp killPoint, d, docfile, noclobber string) {
 	cmd := exec.Command("strace", "-f", "-qq", "-o", "/dev/null",
 		"-e", "trace="+kp.syscall,
 		"-e", fmt.Sprintf("inject=%s:signal=KILL:when=%d", kp.syscall, kp.nth),
-		storechildPath(), "store", d, docfile, "false")
+		storechildPath(), "store", d, docfile, noclobber)
 	_ = cmd.Run()
 }
 
-func traceStore(sdir, docfile string) ([]int, []string, error) {
+func traceStore(sdir, docfile, final, noclobber string) ([]int, []string, error) {
 	tf, _ := os.CreateTemp("", "verif-strace-")
 	tf.Close()
 	defer os.Remove(tf.Name())
 	cmd := exec.Command("strace", "-f", "-qq", "-o", tf.Name(),
 		"-e", "trace=openat,write,fsync,fdatasync,fchmod,close,rename,renameat,renameat2,ftruncate",
-		storechildPath(), "store", sdir, docfile, "false")
+		storechildPath(), "store", sdir, docfile, noclobber)
 	if out, err := cmd.CombinedOutput(); err != nil {
 		return nil, nil, fmt.Errorf("strace: %v: %s", err, out)
 	}
@@ -112,6 +112,8 @@ func traceStore(sdir, docfile string) ([]int, []string, error) {
 		if m := reOpen.FindStringSubmatch(line); m != nil {
 			if strings.HasPrefix(m[1], sdir+"/") {
 				switch {
+				case strings.Contains(m[2], "O_EXCL") && m[1] == filepath.Join(sdir, final):
+					kinds = append(kinds, 8) // the entry itself created and then written in place
 				case strings.Contains(m[2], "O_EXCL"):
 					kinds = append(kinds, 1)
 				case strings.Contains(m[2], "O_TRUNC"):
@@ -259,6 +261,10 @@ func runC20(seed int64, n int, dir string, tier string) *Report {
 		sdir := filepath.Join(base, "store")
 		_ = os.Mkdir(sdir, 0o755)
 		overwrite := round%2 == 1
+		noclobber := "false"
+		if round%4 == 2 {
+			noclobber = "true" // a first-time store that refuses to replace an entry
+		}
 		id := gen.Pick(g, []string{"n", "id/with/slash", "é"})
 		otherID := "other"
 		_, oldB := smallDoc(id, "OLD-"+strings.Repeat("o", g.Int(6)))
@@ -307,18 +313,18 @@ func runC20(seed int64, n int, dir string, tier string) *Report {
 
 		// (A) trace
 		if _, err := exec.LookPath("strace"); err == nil {
-			kinds, lines, err := traceStore(sdir, docfile)
+			kinds, lines, err := traceStore(sdir, docfile, final, noclobber)
 			if err != nil {
 				rep.Notes = append(rep.Notes, err.Error())
 			} else {
 				c := "(CTrace " + coqfmt.List(kinds, func(k int) string { return strconv.Itoa(k) }) + ")"
 				cf.Add(c)
 				rep.NoteCase(c, overwrite, map[string]any{"kind": "syscall trace of a real Store", "overwrite": overwrite, "calls": lines})
-				rep.Count("trace=" + fmt.Sprint(kinds))
+				rep.Count("trace=" + fmt.Sprint(kinds) + " noclobber=" + noclobber)
 			}
 			// search along the OBSERVED call sequence: if the entry itself is opened with O_TRUNC and
 			// written in place, every prefix of the data is a possible post-crash content of the entry
-			if err == nil && containsInt(kinds, 7) {
+			if err == nil && (containsInt(kinds, 7) || containsInt(kinds, 8)) {
 				big := &sbom.Document{Metadata: &sbom.Metadata{Id: id, Name: "NEW"}, NodeList: &sbom.NodeList{Nodes: []*sbom.Node{{Id: "n1", Name: "node"}}, RootElements: []string{"n1"}}}
 				bigB, _ := proto.MarshalOptions{Deterministic: true}.Marshal(big)
 				for _, p := range prefixes(string(bigB)) {
@@ -331,7 +337,7 @@ func runC20(seed int64, n int, dir string, tier string) *Report {
 					if r.Outcome == "ok" {
 						raw, _ := decodeB64(r.Doc)
 						if string(raw) != string(bigB) && string(raw) != string(oldB) {
-							rep.Fail(Failure{What: "after a crash during Store, Retrieve returned a truncated document (neither the previous nor the new one, and no error)", Detail: fmt.Sprintf("entry written in place (open O_TRUNC + write): crash after %d of %d bytes", len(p), len(bigB)), Input: map[string]any{"overwrite": overwrite, "id": id, "entry_prefix_bytes": len(p), "observed_calls": lines}})
+							rep.Fail(Failure{What: "after a crash during Store, Retrieve returned a truncated document (neither the previous nor the new one, and no error)", Detail: fmt.Sprintf("entry written in place (open O_TRUNC or O_EXCL on the entry + write): crash after %d of %d bytes", len(p), len(bigB)), Input: map[string]any{"overwrite": overwrite, "noclobber": noclobber, "id": id, "entry_prefix_bytes": len(p), "observed_calls": lines}})
 							_ = os.RemoveAll(vd)
 							break
 						}
@@ -382,11 +388,11 @@ func runC20(seed int64, n int, dir string, tier string) *Report {
 
 		// (C) kill the real process at the k-th file-system call
 		if _, err := exec.LookPath("strace"); err == nil && (tier == "thorough" || round < 2) {
-			for k, kp := range killPoints(setup, base, docfile) {
+			for k, kp := range killPoints(setup, base, docfile, noclobber) {
 				kd := filepath.Join(base, fmt.Sprintf("kill%d", k))
 				_ = os.Mkdir(kd, 0o755)
 				setup(kd)
-				killAt(kp, kd, docfile)
+				killAt(kp, kd, docfile, noclobber)
 				check(fmt.Sprintf("process killed at the entry of %s", kp.line), kd, map[string]any{"killed_before": kp.line})
 				_ = os.RemoveAll(kd)
 				rep.Count("real_kills")
@@ -398,11 +404,11 @@ func runC20(seed int64, n int, dir string, tier string) *Report {
 			bigfile, shortfile := filepath.Join(base, "big.pb"), filepath.Join(base, "short.pb")
 			_ = os.WriteFile(bigfile, bigB, 0o644)
 			_ = os.WriteFile(shortfile, shortB, 0o644)
-			for k, kp := range killPoints(setup, base, bigfile) {
+			for k, kp := range killPoints(setup, base, bigfile, noclobber) {
 				kd := filepath.Join(base, fmt.Sprintf("killbig%d", k))
 				_ = os.Mkdir(kd, 0o755)
 				setup(kd)
-				killAt(kp, kd, bigfile)
+				killAt(kp, kd, bigfile, noclobber)
 				rep.OracleEvals++
 				st := runChild(false, "store", kd, shortfile, "false")
 				if st.Outcome == "ok" {
